@@ -13,7 +13,7 @@
    * `_head` is kept as `Option (List cbId)`: `none` = SEALED_HEAD_VALUE, `some l` = the linked list of
      callback nodes, most recently pushed first.  The pointer the code compares in its CAS is
      `Head.ptr`; `node->next = head` (a plain write to a still private node) is folded into the CAS.
-   * `_futex` is the 32-bit word as the machine keeps it (wrap-around `% 2^32`), `READY_MASK` bit 31.
+   * `_futex` is the 32-bit word: `READY_MASK` (bit 31) and a "somebody waits" flag (bit 0, set by `fetch_or`).
    * `int64_t` deadline arithmetic of `wait_for_slow` is two's-complement wrap-around (`wrap64`).
   Ghost fields (`runs`, `regDone`, `adds`, `hb`, …) record what happened; they never influence a step.
   Core Lean only.
@@ -45,7 +45,6 @@ def HPtr.enc (addr : Nat → Nat) : HPtr → Nat
   | .node id => addr id
   | .seal => sealedHead
 
-def u32 (x : Nat) : Nat := x % 2 ^ 32
 def u64 (x : Nat) : Nat := x % 2 ^ 64
 /-- `int64_t` wrap-around -/
 def wrap64 (x : Int) : Int := (x + 2 ^ 63) % 2 ^ 64 - 2 ^ 63
@@ -81,14 +80,14 @@ inductive Pc
   -- Future::get()
   | g0                           -- `_futex.value().load(acquire)`
   | gR                           -- `return value()`; the caller reads the value
-  | w0                           -- wait_slow: `fetch_add(1, acquire) + 1`
+  | w0                           -- wait_slow: `fetch_or(1, acquire) | 1`
   | w1 (value : Nat)             -- `_futex.wait(value, nullptr)`
   | wS (e : Nat)                 -- inside futex_wait, asleep since wake epoch `e` (woken once `wakes > e`)
   | w2                           -- `value = _futex.value().load(acquire)`
   -- Future::wait_for(τ)
   | f0 (tau : Int)               -- `_futex.value().load(acquire)`
   | f1 (to0 : Nat)               -- wait_for_slow: `clock_gettime`, `until_ns = now + timeout_ns`
-  | f2 (w : WF)                  -- `fetch_add(1, acquire) + 1`
+  | f2 (w : WF)                  -- `fetch_or(1, acquire) | 1`
   | f3 (w : WF) (to value : Nat) -- `_futex.wait(value, &spec)` with `spec = to`
   | fS (w : WF) (e : Nat)        -- inside the timed futex_wait, asleep since wake epoch `e`
   | f4 (w : WF)                  -- `value = _futex.value().load(acquire)`
@@ -122,9 +121,8 @@ structure State where
   constructs : Nat                  -- executions of the value constructor
   seals : Nat                       -- executions of `seal()`
   setDone : Bool                    -- `FutureContext::set_value` has returned
-  adds : Nat                        -- `fetch_add`s performed on the futex word
+  adds : Nat                        -- slow-path waits so far (`fetch_or`s performed on the futex word); statistic only
   xchgDone : Bool                   -- the setter has swapped READY into the futex word
-  addsAtXchg : Nat                  -- value of `adds` at that moment
   regOwner : Nat → Option Nat       -- callback id ↦ thread that passed it to on_finish
   det : List Nat                    -- the setter's detached list (the `det` of its program counter)
   regStarted : Nat → Bool           -- callback id has been passed to on_finish
@@ -147,7 +145,7 @@ def State.init (latchCount : Option Nat) : State :=
     latch := latchCount.isSome, budget := latchCount.getD 0, pending := [],
     setCalled := false, setVal := if latchCount.isSome then some latchValue else none,
     firer := if latchCount = some 0 then some 0 else none,
-    setEntries := 0, constructs := 0, seals := 0, setDone := false, adds := 0, xchgDone := false, addsAtXchg := 0,
+    setEntries := 0, constructs := 0, seals := 0, setDone := false, adds := 0, xchgDone := false,
     regOwner := fun _ => none, det := [],
     regStarted := fun _ => false, regDone := fun _ => false, runs := fun _ => [], result := fun _ => none,
     sealRel := false, futexRel := false, hb := fun _ => false, nodeRel := fun _ => false, sealAcq := false,
@@ -205,7 +203,7 @@ def stepThread (addr : Nat → Nat) (s : State) (t : Nat) (h : Hint) : Option (S
                    pc := upd s.pc t (.s2 (s.head.getD [])) },
           .xchg "head" 0 ordSeal (s.head.ptr.enc addr) sealedHead)
   | .s2 det =>
-    some ({ s with futex := readyMask, futexRel := ordFutexXchg.releases, xchgDone := true, addsAtXchg := s.adds,
+    some ({ s with futex := readyMask, futexRel := ordFutexXchg.releases, xchgDone := true,
                    pc := upd s.pc t (if s.futex > wakeIfWaitersAbove then .s3 det else .s4 det) },
           .xchg "futex" 0 ordFutexXchg s.futex readyMask)
   | .s3 det =>
@@ -235,10 +233,10 @@ def stepThread (addr : Nat → Nat) (s : State) (t : Nat) (h : Hint) : Option (S
                    pc := upd s.pc t .idle },
           .ev (Res.got s.storage).words)
   | .w0 =>
-    some ({ s with futex := u32 (s.futex + waitAddOperand), adds := s.adds + 1,
-                   hb := upd s.hb t (s.hb t || (hasReady s.futex && s.futexRel && ordWaitAdd.acquires)),
-                   pc := upd s.pc t (waitLoop (u32 (s.futex + waitAddLocalBump))) },
-          .rmw "add" "futex" 0 ordWaitAdd s.futex waitAddOperand)
+    some ({ s with futex := s.futex ||| waitOrOperand, adds := s.adds + 1,
+                   hb := upd s.hb t (s.hb t || (hasReady s.futex && s.futexRel && ordWaitRmw.acquires)),
+                   pc := upd s.pc t (waitLoop (s.futex ||| waitOrLocalMask)) },
+          .rmw "or" "futex" 0 ordWaitRmw s.futex waitOrOperand)
   | .w1 value =>
     if s.futex = value then
       some ({ s with pc := upd s.pc t (.wS s.wakes) }, .fwait "futex" 0 value true)
@@ -259,12 +257,12 @@ def stepThread (addr : Nat → Nat) (s : State) (t : Nat) (h : Hint) : Option (S
     some ({ s with pc := upd s.pc t (.f2 { start := s.now, until_ := wrap64 (s.now + to0), to0 := to0 }) },
           .ev ["clock", toString s.now])
   | .f2 w =>
-    let value := u32 (s.futex + waitForAddLocalBump)
-    some ({ s with futex := u32 (s.futex + waitForAddOperand), adds := s.adds + 1,
-                   hb := upd s.hb t (s.hb t || (hasReady s.futex && s.futexRel && ordWaitForAdd.acquires)),
+    let value := s.futex ||| waitForOrLocalMask
+    some ({ s with futex := s.futex ||| waitForOrOperand, adds := s.adds + 1,
+                   hb := upd s.hb t (s.hb t || (hasReady s.futex && s.futexRel && ordWaitForRmw.acquires)),
                    pc := upd s.pc t (if hasReady value then .ret (.waited waitForSlowFinal true w.start w.to0 w.start)
                                      else .f3 w w.to0 value) },
-          .rmw "add" "futex" 0 ordWaitForAdd s.futex waitForAddOperand)
+          .rmw "or" "futex" 0 ordWaitForRmw s.futex waitForOrOperand)
   | .f3 w _ value =>
     if s.futex = value then
       some ({ s with pc := upd s.pc t (.fS w s.wakes) }, .fwait "futex" 0 value true)
@@ -353,9 +351,9 @@ def Skel.wait_for : List Site := [.load "_futex.value()" .acq, .call "wait_for_s
 def Skel.on_finish : List Site := [
   .load "_head" .acq, .call "run_callback", .call "run_callback", .cas "_head" false .acqrel .acq, .call "node->function"]
 def Skel.wait_slow : List Site := [
-  .rmw "fetch_add" "_futex.value()" .acq, .call "_futex.wait", .load "_futex.value()" .acq]
+  .rmw "fetch_or" "_futex.value()" .acq, .call "_futex.wait", .load "_futex.value()" .acq]
 def Skel.wait_for_slow : List Site := [
-  .call "clock_gettime", .rmw "fetch_add" "_futex.value()" .acq, .call "_futex.wait",
+  .call "clock_gettime", .rmw "fetch_or" "_futex.value()" .acq, .call "_futex.wait",
   .load "_futex.value()" .acq, .call "clock_gettime"]
 def Skel.promise_set_value : List Site := [.call "ready", .call "set_value"]
 def Skel.future_ready : List Site := [.call "ready"]
